@@ -299,3 +299,127 @@ def _short(v):
     if isinstance(v, list):
         return "[" + ", ".join(str(x) for x in v[:4]) + (", … %d items" % len(v) if len(v) > 4 else "") + "]"
     return str(v)
+
+
+# ---------------------------------------------------------------------------------- UNTIL in another zone than DTSTART
+
+ZONES = {
+    "NY-str": ("tzstr", "EST5EDT,M3.2.0,M11.1.0"),
+    "SYD-str": ("tzstr", "AEST-10AEDT,M10.1.0,M4.1.0/3"),
+    "NY-file": ("gettz", "America/New_York"),
+    "LHI-file": ("gettz", "Australia/Lord_Howe"),          # 30-minute saving
+}
+# (zone, naive wall start a few hours before the transition): end of DST (repeated hour) and start of DST (gap)
+ZONE_STARTS = [
+    ("NY-str", (2024, 11, 3, 0, 30, 0)), ("NY-str", (2024, 3, 10, 0, 30, 0)), ("NY-str", (2024, 11, 2, 23, 10, 5)),
+    ("SYD-str", (2024, 4, 7, 1, 0, 0)), ("SYD-str", (2024, 10, 6, 0, 45, 0)),
+    ("NY-file", (2021, 11, 7, 0, 20, 0)), ("NY-file", (2021, 3, 14, 0, 20, 0)),
+    ("LHI-file", (2024, 4, 7, 0, 40, 0)), ("LHI-file", (2024, 10, 6, 0, 40, 0)),
+]
+ZONE_RULES = [
+    {"freq": 5, "interval": 15}, {"freq": 5, "interval": 20}, {"freq": 5, "interval": 7}, {"freq": 5, "interval": 45},
+    {"freq": 4, "interval": 1, "byminute": [20, 50]}, {"freq": 4, "interval": 1}, {"freq": 4, "interval": 2, "byminute": [0, 30], "bysecond": [0, 30]},
+    {"freq": 6, "interval": 600}, {"freq": 6, "interval": 1234}, {"freq": 6, "interval": 3600, "bysetpos": [1]},
+    {"freq": 3, "interval": 1, "byhour": [0, 1, 2, 3], "byminute": [15, 45]},
+    {"freq": 5, "interval": 30, "byhour": [1, 2]},
+]
+_ZCACHE = {}
+
+
+def zone_obj(name):
+    from dateutil import tz
+    if name not in _ZCACHE:
+        kind, arg = ZONES[name]
+        _ZCACHE[name] = tz.tzstr(arg) if kind == "tzstr" else tz.gettz(arg)
+    return _ZCACHE[name]
+
+
+def until_zone_cases(rng, n_random):
+    """aware rules (DST zone) x UNTIL carried by ANOTHER tzinfo (UTC as RFC 5545 requires, a fixed offset, an equal but distinct
+    zone object), the UNTIL instant placed around the repeated hour / the gap: at a candidate's instant, +-1 s, between candidates"""
+    out = []
+    for zi, (zname, start) in enumerate(ZONE_STARTS):
+        for ri, rule in enumerate(ZONE_RULES):
+            if (zi + ri) % 3 and n_random < 400:
+                continue
+            for place in (("item", 3, 0), ("item", 4, 0), ("item", 5, 1), ("item", 6, -1), ("item", 7, 0), ("item", 9, 0), ("item", 12, 1800), ("item", 2, 0)):
+                c = dict(rule)
+                c.update({"zone": zname, "dtstart": list(start) + [0], "wkst": None, "until_place": list(place),
+                          "until_kind": ["utc", "offset", "same-zone-other-object"][(zi + ri + place[1]) % 3], "n": 40})
+                out.append(c)
+    for _ in range(n_random):
+        zname, start = rng.choice(ZONE_STARTS)
+        c = dict(rng.choice(ZONE_RULES))
+        if rng.random() < 0.5:
+            c["interval"] = rng.choice([1, 2, 3, 5, 10, 11, 25, 40, 59, 61, 90]) * (1 if c["freq"] != 6 else 60)
+        c.update({"zone": zname, "dtstart": list(start) + [0], "wkst": None,
+                  "until_place": ["item", rng.randint(0, 14), rng.choice([0, 0, 1, -1, 450, -450, 1800])],
+                  "until_kind": rng.choice(["utc", "utc", "offset", "same-zone-other-object"]), "n": 40})
+        out.append(c)
+    return out
+
+
+def run_until_zone(c):
+    """None (agrees) | "skip" | (what, detail).  Reference: the SAME rule without UNTIL (its sequence is what the main oracle
+    checks against the specification); with UNTIL = u the rule must deliver exactly the elements whose INSTANT is not later than
+    u — evaluated only where the instants of the unbounded sequence are increasing up to and just past u (inside a gap the
+    wall-clock order and the instant order differ and "the last instant not later than UNTIL" is not a prefix)."""
+    import datetime, itertools, warnings
+    from dateutil import rrule as R, tz
+    UTC = tz.tzutc()
+    z = zone_obj(c["zone"])
+    if z is None:
+        return "skip"
+    kw = {"dtstart": datetime.datetime(*c["dtstart"][:6], tzinfo=z), "interval": c["interval"]}
+    for k in ("byhour", "byminute", "bysecond", "bysetpos"):
+        if c.get(k) is not None:
+            kw[k] = list(c[k])
+    with warnings.catch_warnings():
+        warnings.simplefilter("ignore")
+        ref = list(itertools.islice(R.rrule(c["freq"], **kw), c["n"]))
+    if not ref:
+        return "skip"
+    inst = [x.astimezone(UTC) for x in ref]
+    _, idx, delta = c["until_place"]
+    idx = min(idx, len(ref) - 2)
+    if idx < 0:
+        return "skip"
+    u = inst[idx] + datetime.timedelta(seconds=delta)
+    if c.get("until_utc") is not None:
+        u = datetime.datetime(*c["until_utc"][:6], tzinfo=UTC)
+    if u >= inst[-1]:
+        return "skip"
+    kind = c["until_kind"]
+    if kind == "utc":
+        until = u
+    elif kind == "offset":
+        until = u.astimezone(tz.tzoffset("O", 3 * 3600 + 1800))
+    else:
+        kd, arg = ZONES[c["zone"]]
+        z2 = tz.tzstr.instance(arg) if kd == "tzstr" else tz.gettz.nocache(arg)       # equal zone, DISTINCT object
+        if z2 is z or z2 is None:
+            return "skip"                # the same object: CPython compares wall clocks inside one tzinfo, fold ignored
+        until = u.astimezone(z2)
+    exp = [x for x, i in zip(ref, inst) if i <= u]
+    prefix = list(itertools.takewhile(lambda p: p[1] <= u, zip(ref, inst)))
+    if len(prefix) != len(exp):
+        return "skip"                                   # instants not increasing around u (gap): not a prefix question
+    near = ref[:len(exp) + 2]
+    if any(not tz.datetime_exists(x) for x in near) or any(not (a < b) for a, b in zip(inst[:len(near)], inst[1:len(near)])):
+        return "skip"                                   # a candidate inside the gap: its instant is not defined
+    with warnings.catch_warnings():
+        warnings.simplefilter("ignore")
+        try:
+            got = list(itertools.islice(R.rrule(c["freq"], until=until, **kw), c["n"] + 5))
+        except Exception as ex:
+            return ("%s raised by a rule whose UNTIL carries another tzinfo than DTSTART" % type(ex).__name__, {"exception": str(ex)[:200]})
+    c["until_utc"] = [u.year, u.month, u.day, u.hour, u.minute, u.second]
+    if got != exp or any(g.tzinfo is not z for g in got):
+        k = 0
+        while k < len(got) and k < len(exp) and got[k] == exp[k]:
+            k += 1
+        return ("UNTIL=%s (%s) with DTSTART in %s: the rule yields %d instants, %d instants of its sequence are not later than UNTIL; first difference at "
+                "index %d: implementation %s, expected %s" % (u.isoformat(), kind, c["zone"], len(got), len(exp), k,
+                                                             got[k].isoformat() if k < len(got) else None, exp[k].isoformat() if k < len(exp) else None),
+                {"impl": [g.isoformat() for g in got[max(0, k - 1):k + 2]], "expected": [e.isoformat() for e in exp[max(0, k - 1):k + 2]]})
+    return None
